@@ -137,11 +137,10 @@ ElemApplyTemplates::startElement(StylesheetExecutionContext&        executionCon
 {
     ElemTemplateElement::startElement(executionContext);
 
-    if (isDefaultTemplate() == false)
-    {
-        executionContext.pushCurrentMode(m_mode);
-    }
-
+    // The mode is pushed only after the xsl:with-param children have been
+    // evaluated (see getFirstChildElemToExecute() and getNextChildElemToExecute()): their values are computed in the context
+    // of the caller, whose current mode xsl:apply-imports must see
+    // (XSLT 1.0, sections 11.6 and 5.6).
     executionContext.pushInvoker(this);
 
     return getFirstChildElemToExecute(executionContext);
@@ -200,6 +199,11 @@ ElemApplyTemplates::getNextChildElemToExecute(
             executionContext.pushContextMarker();
 
             executionContext.endParams();
+
+            if (isDefaultTemplate() == false)
+            {
+                executionContext.pushCurrentMode(m_mode);
+            }
     
             return findNextTemplateToExecute(executionContext);
 
@@ -233,6 +237,11 @@ ElemApplyTemplates::getFirstChildElemToExecute(
         executionContext.pushContextNodeList(*nodesToTransform);
         
         executionContext.pushContextMarker();
+
+        if (isDefaultTemplate() == false)
+        {
+            executionContext.pushCurrentMode(m_mode);
+        }
 
         return findNextTemplateToExecute(executionContext);
     }
